@@ -64,6 +64,9 @@ func (ls *listenServer) OnCReact(r *core.Msg, c core.CConn) (out []byte, action 
 
 	core.GlobalStats.ReqCmdIncr(r.Type)
 
+	// a request is either sent as a whole or answered with an error as a whole,
+	// so every fragment gets its connection before any of them is queued
+	sConns := make(map[int32]core.SConn, len(r.Body))
 	for slot, frag := range r.Body {
 		if r.Type == codec.ReqAuth {
 			if len(ls.Password) < 1 {
@@ -99,13 +102,15 @@ func (ls *listenServer) OnCReact(r *core.Msg, c core.CConn) (out []byte, action 
 				return codec.ErrUnKnown.Bytes(), core.None
 			}
 		}
-		frag.Owner = c
-
 		logging.Debugfunc(func() string {
 			return fmt.Sprintf("[%dm|%df][%dc|%ds] key '%s' maps to server '%s' in slot %d", r.Id, frag.Id, c.Fd(), sConn.Fd(), frag.Key, addr, slot)
 		})
+		sConns[slot] = sConn
+	}
 
-		sConn.EnqueueOutFrag(frag)
+	for slot, frag := range r.Body {
+		frag.Owner = c
+		sConns[slot].EnqueueOutFrag(frag)
 	}
 
 	c.EnqueueInMsg(r)
